@@ -179,7 +179,7 @@ pub fn hook_auth_case(len: usize) -> Case {
             let who = Who::new(false);
             let fee = Uint128::new(symcore::var("fee_rate"));
             let min = Uint128::new(symcore::var("min_stake"));
-            let mut msg = scen::init_msg(&who, &CfgSpec { treasury: false, oracle: false, same_prefix: false, stopped: false }, fee, min);
+            let mut msg = scen::init_msg(&who, &CfgSpec { treasury: false, oracle: false, same_prefix: false, stopped: false, variant: 0 }, fee, min);
             msg.protocol_chain_config.account_address_prefix = "p".repeat(len);
             msg.monitors = vec![];
             let (mut chain, ok) = instantiate_with(f, msg, &who);
@@ -232,7 +232,7 @@ pub fn channel_auth_case(i: usize, via_update: bool) -> Case {
             let ids = channel_ids();
             let fee = Uint128::new(symcore::var("fee_rate"));
             let min = Uint128::new(symcore::var("min_stake"));
-            let mut msg = scen::init_msg(&who, &CfgSpec { treasury: false, oracle: false, same_prefix: false, stopped: false }, fee, min);
+            let mut msg = scen::init_msg(&who, &CfgSpec { treasury: false, oracle: false, same_prefix: false, stopped: false, variant: 0 }, fee, min);
             if !via_update {
                 msg.protocol_chain_config.ibc_channel_id = ids[i].to_string();
             }
@@ -312,7 +312,7 @@ pub fn valset_case(perm: usize, via_update: bool) -> Case {
             let fresh = addr::addr(&who.vp, 53, 20);
             let perms = [[0, 1, 2], [0, 2, 1], [1, 0, 2], [1, 2, 0], [2, 0, 1], [2, 1, 0]];
             let order: Vec<String> = perms[perm].iter().map(|i| vals[*i].clone()).collect();
-            let mut msg = scen::init_msg(&who, &CfgSpec { treasury: false, oracle: false, same_prefix: false, stopped: false }, fee, min);
+            let mut msg = scen::init_msg(&who, &CfgSpec { treasury: false, oracle: false, same_prefix: false, stopped: false, variant: 0 }, fee, min);
             let native = msg.native_chain_config.clone();
             if !via_update {
                 msg.native_chain_config.validators = order.clone();
